@@ -93,6 +93,12 @@ Theorem C10_own_limit_reaches_every_handle :
   forall h configured ps, own_at h configured ps = configured.
 Proof. exact own_limit_reaches_every_handle. Qed.
 
+(* ... and every SENDING handle (primary / cloned SendRequest, the streams they create, the server's streams, the send half of
+   split()) reads the connection's settings cell, so the limit in force there is the one the peer advertised on this connection *)
+Theorem C10_every_sending_handle_reads_the_connection_cell :
+  forall h ps, settings_seen_by h ps = ps.
+Proof. exact every_sending_handle_reads_the_connection_cell. Qed.
+
 (* early cancel: once the lines read so far exceed the limit the section is refused as too big - stream scope - whatever
    follows (a truncated or undecodable tail is never looked at).  [reads r fs t]: r decodes to the fields fs, leaving t *)
 Theorem C10_oversize_wins_over_undecodable_tail :
@@ -153,6 +159,7 @@ Print Assumptions C10_client_response_too_big_stops_sending.
 Print Assumptions C10_trailers_both_roles.
 Print Assumptions C10_oversize_is_never_a_connection_error.
 Print Assumptions C10_own_limit_reaches_every_handle.
+Print Assumptions C10_every_sending_handle_reads_the_connection_cell.
 Print Assumptions C10_oversize_wins_over_undecodable_tail.
 Print Assumptions C10_limit_in_force.
 Print Assumptions C10_send_sites_exact.
